@@ -12,4 +12,7 @@ def jobs(tier, ws):
     js.append(Job('C11/ncmpio_write_numrecs', 'C11', ['src/drivers/ncmpio/ncmpio_sync.c'] + COMMON, 'C11_write_numrecs.c',
                   enforce='ncmpio_write_numrecs', defines=['-DENFORCE_ncmpio_write_numrecs'], extra_src=MODEL,
                   canaries=['wrote_ok', 'failure_reported', 'eintoverflow', 'nothing_to_do'], unwind=26, kind='proof'))
+    js.append(Job('C11/ncmpio_read_write', 'C11', ['src/drivers/ncmpio/ncmpio_file_io.c'] + COMMON, 'C11_read_write.c',
+                  enforce='ncmpio_read_write', extra_src=MODEL, canaries=['transferred', 'failure_reported', 'packed_path'], unwind=40, kind='proof', timeout=600,
+                  assumptions=['ncmpio_read_write instance: predefined element type, count <= 16, packing buffer < 1 KiB; MPI_Pack/MPI_Unpack bookkeeping only']))
     return js
